@@ -1,4 +1,227 @@
+(* C03 - macro expansion is hygienic inlining.  Statements only (proofs: Proofs/MacroProps.v).
+
+   Model/Macro.v      resolve_macros : the preprocessor, transcribed (tied to /repo by the campaign of checks/c03.py)
+   Spec/InlineSpec.v  inline         : the capture-avoiding textual inliner on resolved names
+
+   wf_tree D          what the parser guarantees about a tree (identifiers are identifiers, parameters/locals pairwise
+                      different, no `$` in a call argument, one call per code position in a body, file short names
+                      are identifiers); evaluated on every tree the campaign dumps from the real parser. *)
 From FJ Require Import Lib.Base.
 From FJ Require Import Model.Ast Model.Expr Model.Macro Spec.InlineSpec Proofs.MacroProps.
-Theorem C03_placeholder : True. Proof. exact placeholder_true. Qed.
-Print Assumptions C03_placeholder.
+Local Open Scope string_scope.
+
+(* ---- substitution is one pass --------------------------------------------------------------------------------- *)
+
+(* Substituting a dictionary sg into e (Expr.eval_new) gives an expression whose value, under ANY label table L, is the
+   value of e where every substituted name stands for the value OF ITS REPLACEMENT UNDER L: the replacement is
+   evaluated in the caller's environment and is never looked up through sg again - an argument spelled like a
+   parameter, a local label or an iterator of the callee keeps its own meaning.  Both directions: the substitution
+   succeeds and has that value exactly when e has a value in the composed environment. *)
+Theorem C03_subst_once :
+  forall (sg : msubst) (e : expr) (L : string -> option Z) (v : Z),
+    (exists e', eval_new sg e = Ok e' /\ exact_eval L e' = Ok v) <-> exact_eval (env_subst L sg) e = Ok v.
+Proof. exact subst_once_iff. Qed.
+Print Assumptions C03_subst_once.
+
+(* The dictionary pass of the code is the TEXTUAL one-pass substitution of the specification followed by constant
+   folding, when the dictionary holds the folded forms of the textual bindings (R_sub). *)
+Theorem C03_subst_once_textual :
+  forall (pd : pdict) (b : binding) (e : expr),
+    R_sub pd b -> eval_new (subst_of pd) e = eval_new empty_sub (subst (lookup b) e).
+Proof. exact eval_new_is_subst_then_fold. Qed.
+Print Assumptions C03_subst_once_textual.
+
+(* ---- rep ------------------------------------------------------------------------------------------------------- *)
+
+(* Whenever the code expands `rep(times, it) name args` (in any state, with any dictionary built by the preprocessor:
+   folded replacements, no ':' names), the count evaluates to some n and the result is exactly that of the n calls
+   name args[it := 0]; ...; name args[it := n-1] in sequence, the iterator being substituted SIMULTANEOUSLY with the
+   parameters (innermost binder), each expansion under its own path "…:rep<j>:name". *)
+Theorem C03_rep :
+  forall w D rec pd prefix times it name args pos st st1,
+    hygienic_dict pd -> Forall nice_expr args -> is_ident it = true ->
+    step_op w D rec pd prefix (SRepCall times it name args pos) st = ROk st1 ->
+    exists t' n, eval_new (subst_of pd) times = Ok t' /\ exact_eval (labels_env (ps_core st)) t' = Ok n /\
+                 rep_calls rec (call_name name args) pd it args prefix pos (Z.to_nat n) 0 st = ROk st1.
+Proof. exact rep_unrolls. Qed.
+Print Assumptions C03_rep.
+
+(* rep 0 expands to nothing (not even a look-up of the macro) *)
+Theorem C03_rep_zero :
+  forall w D rec pd prefix times it name args pos st st1 t',
+    step_op w D rec pd prefix (SRepCall times it name args pos) st = ROk st1 ->
+    eval_new (subst_of pd) times = Ok t' -> exact_eval (labels_env (ps_core st)) t' = Ok 0%Z -> st1 = st.
+Proof. exact rep_zero. Qed.
+Print Assumptions C03_rep_zero.
+
+(* ---- generated names --------------------------------------------------------------------------------------------- *)
+
+(* A generated local-label name "path---l" is not a name a program can spell (`-` is not an identifier character),
+   and two generated names are equal only for the same label l of expansions reached through calls with the same
+   file short name, line, repetition index, macro name and arity (injectivity of the path rendering). *)
+Theorem C03_fresh :
+  forall pi1 l1 pi2 l2,
+    Forall step_wf pi1 -> Forall step_wf pi2 -> is_ident l1 = true -> is_ident l2 = true ->
+    user_name (impl_fresh pi1 l1) = false /\
+    (impl_fresh pi1 l1 = impl_fresh pi2 l2 -> map frame_data pi1 = map frame_data pi2 /\ l1 = l2).
+Proof. exact fresh_names. Qed.
+Print Assumptions C03_fresh.
+
+(* On the expansion paths that occur in a well-formed tree (each step a call statement of the body reached so far,
+   repetition indices >= 0) the code's naming is injective outright: the same generated name means the same label of
+   the same expansion - the names of different expansions are renamed apart. *)
+Theorem C03_fresh_paths :
+  forall D pi1 l1 pi2 l2,
+    wf_tree D = true -> valid_path D pi1 -> valid_path D pi2 -> is_ident l1 = true -> is_ident l2 = true ->
+    impl_fresh pi1 l1 = impl_fresh pi2 l2 -> pi1 = pi2 /\ l1 = l2.
+Proof. exact fresh_on_valid_paths. Qed.
+Print Assumptions C03_fresh_paths.
+
+(* the hygienic iterator name "…:rep:i" is neither a user name nor a local-label name nor a dictionary key *)
+Theorem C03_fresh_iterator :
+  forall prefix pos it, is_ident it = true ->
+    niceb (hygienic_iterator prefix pos it) = false /\
+    (forall s, dotted_ident s = true -> s <> hygienic_iterator prefix pos it) /\
+    (forall p l, is_ident l = true -> local_label p l <> hygienic_iterator prefix pos it).
+Proof. exact iterator_name_fresh. Qed.
+Print Assumptions C03_fresh_iterator.
+
+(* ---- expansion = inlining ------------------------------------------------------------------------------------------ *)
+
+(* For every memory width, every well-formed tree and every depth limit: if the macro program expands (resolve_macros
+   succeeds) and the specification's inliner is defined on it (rep counts are constant expressions), then the inlined
+   program P is macro free, and the preprocessor expands P to THE SAME op list and to a label table that agrees with
+   the macro program's on every name that is not a macro-start label (debug information no expression can name).
+   Generated names are taken as the code builds them (impl_fresh), so the renaming is the identity here; C03_fresh
+   says that this naming is fresh and injective.  Equal op lists and label values give equal images by C02. *)
+Theorem C03_inline :
+  forall w D depth ops lbls P,
+    wf_tree D = true ->
+    resolve_macros w D depth = ROk (ops, lbls) ->
+    inline impl_fresh D (N.to_nat depth) = Some P ->
+    Forall (fun s => stmt_primitive s = true) P /\
+    exists lbls', resolve_macros w (prim_tree P) depth = ROk (ops, lbls') /\
+                  forall s, is_start_label s = false -> dict_get lbls' s = dict_get lbls s.
+Proof. exact inline_correct. Qed.
+Print Assumptions C03_inline.
+
+(* NOT PROVED (kept visible): the same for EVERY admissible naming of the inliner (names pairwise different and not
+   spellable by a program), up to an injective renaming rho of the generated names ([expands_alike] in
+   Proofs/MacroProps.v: the inlined program expands to map (rename rho) ops, rho is injective on the declared labels,
+   fixes user names, and the label tables agree through rho on every name that is not a macro-start label).
+   The campaign evaluates this on the real assembler with the flat names of harness/fjverif/inliner.py. *)
+Definition C03_inline_any_naming_statement : Prop :=
+  forall fresh w D depth ops lbls P,
+    admissible fresh -> wf_tree D = true ->
+    resolve_macros w D depth = ROk (ops, lbls) ->
+    inline fresh D (N.to_nat depth) = Some P ->
+    expands_alike w depth ops lbls P.
+
+(* what is proved of it: the naming the code itself uses (fresh = impl_fresh, with rho the identity) *)
+Theorem C03_inline_any_naming_partial :
+  forall w D depth ops lbls P,
+    wf_tree D = true ->
+    resolve_macros w D depth = ROk (ops, lbls) ->
+    inline impl_fresh D (N.to_nat depth) = Some P ->
+    expands_alike w depth ops lbls P.
+Proof. exact inline_correct_id_renaming. Qed.
+Print Assumptions C03_inline_any_naming_partial.
+
+(* ---- several files --------------------------------------------------------------------------------------------------- *)
+
+(* Reading the same statements from several files gives the tree D of the one-file program at other code positions
+   (tree_repos phi D, for any map phi of positions that keeps the tree well formed).  It expands to the same op list -
+   and the same labels but for macro-start labels - as the macro-free program obtained by inlining D ITSELF with the
+   local-label names that carry the new positions: splitting changes the file:line components of generated names and
+   nothing else.  (Together with C03_inline: both programs are expansions of inlinings of the same tree D.) *)
+Theorem C03_split :
+  forall phi w D depth ops lbls P,
+    wf_tree (tree_repos phi D) = true ->
+    resolve_macros w (tree_repos phi D) depth = ROk (ops, lbls) ->
+    inline (fun p => impl_fresh (map (step_repos phi) p)) D (N.to_nat depth) = Some P ->
+    Forall (fun s => stmt_primitive s = true) P /\
+    exists lbls', resolve_macros w (prim_tree P) depth = ROk (ops, lbls') /\
+                  forall s, is_start_label s = false -> dict_get lbls' s = dict_get lbls s.
+Proof. exact split_correct. Qed.
+Print Assumptions C03_split.
+
+(* the statements of the files are expanded as one concatenated body: the second part starts in the state (address,
+   ops, labels) the first part leaves *)
+Theorem C03_split_concat :
+  forall w D rec pd prefix ops1 ops2 st,
+    run_ops w D rec pd prefix (ops1 ++ ops2) st = rbind (run_ops w D rec pd prefix ops1 st) (run_ops w D rec pd prefix ops2).
+Proof. exact run_ops_concat. Qed.
+Print Assumptions C03_split_concat.
+
+(* ---- namespace resolution -------------------------------------------------------------------------------------------- *)
+
+(* k+1 leading dots strip k levels of the current namespace (FJParser.base_name_to_ns_full_name is Spec ns_resolve);
+   more dots than levels is the recorded syntax error.  `rest` does not start with a dot. *)
+Theorem C03_ns_resolve :
+  forall curr k rest,
+    lstrip_dots rest = (O, rest) ->
+    match ns_resolve curr (S k) rest with
+    | Some s => base_name_to_ns_full_name curr (String "." (Nat.iter k (String ".") rest)) = NsName s
+    | None => exists r, base_name_to_ns_full_name curr (String "." (Nat.iter k (String ".") rest)) = NsTooManyDots r
+    end.
+Proof. exact ns_resolve_correct. Qed.
+Print Assumptions C03_ns_resolve.
+
+(* ---- the hypotheses are satisfiable: a program with namespaces, aliases, nested calls and a rep ----------------------- *)
+
+Local Open Scope N_scope.
+Definition example_tree : macro_dict :=
+ [(("", 0%N), mkmacro [] [] [SLabel "a.x" (mkpos "t2.fj" "f1" 2%N);
+   SFlipJump (EInt (0)%Z) (ELbl "a.x") (mkpos "t2.fj" "f1" 3%N);
+   SMacroCall "a.m" [EInt (77)%Z] (mkpos "t2.fj" "f1" 20%N);
+   SMacroCall "a.b.k" [EInt (5)%Z] (mkpos "t2.fj" "f1" 21%N);
+   SRepCall (EInt (2)%Z) "i" "a.b.k" [ELbl "i"] (mkpos "t2.fj" "f1" 22%N)] "" (mkpos "t2.fj" "f1" 1%N));
+ (("a.m", 1%N), mkmacro ["x"] [] [SFlipJump (EInt (0)%Z) (ELbl "a.x") (mkpos "t2.fj" "f1" 5%N);
+   SFlipJump (EInt (0)%Z) (ELbl "x") (mkpos "t2.fj" "f1" 6%N);
+   SFlipJump (EInt (0)%Z) (ELbl "a.x") (mkpos "t2.fj" "f1" 7%N)] "a" (mkpos "t2.fj" "f1" 4%N));
+ (("a.b.k", 1%N), mkmacro ["p"] ["q"] [SLabel "a.b.q" (mkpos "t2.fj" "f1" 11%N);
+   SFlipJump (EInt (0)%Z) (ELbl "a.x") (mkpos "t2.fj" "f1" 12%N);
+   SFlipJump (EInt (0)%Z) (ELbl "a.b.q") (mkpos "t2.fj" "f1" 13%N);
+   SFlipJump (EInt (0)%Z) (ELbl "a.b.q") (mkpos "t2.fj" "f1" 14%N);
+   SFlipJump (EInt (0)%Z) (ELbl "p") (mkpos "t2.fj" "f1" 15%N);
+   SMacroCall "a.m" [ELbl "q"] (mkpos "t2.fj" "f1" 16%N)] "a.b" (mkpos "t2.fj" "f1" 10%N))].
+
+Example C03_hypotheses_satisfiable :
+  wf_tree example_tree = true /\
+  (exists ops lbls P, resolve_macros 64 example_tree 900 = ROk (ops, lbls) /\ List.length ops = 26%nat /\
+                      inline impl_fresh example_tree (N.to_nat 900) = Some P /\ List.length P = 29%nat) /\
+  check_mcase (mkmcase 64 900 example_tree (ExpErr 0) None) = 30.
+Proof.
+  split; [vm_compute; reflexivity|]. split; [|vm_compute; reflexivity].
+  eexists _, _, _. split; [vm_compute; reflexivity|]. split; [reflexivity|]. split; [vm_compute; reflexivity | reflexivity].
+Qed.
+
+(* the other file split of the same program: positions moved to a second file *)
+Example C03_split_satisfiable :
+  let phi := fun p => mkpos (cp_file p) "f2" (cp_line p + 100) in
+  wf_tree (tree_repos phi example_tree) = true /\
+  (exists ops lbls, resolve_macros 64 (tree_repos phi example_tree) 900 = ROk (ops, lbls)) /\
+  (exists P, inline (fun p => impl_fresh (map (step_repos phi) p)) example_tree (N.to_nat 900) = Some P).
+Proof.
+  split; [vm_compute; reflexivity|]. split; [eexists _, _; vm_compute; reflexivity | eexists; vm_compute; reflexivity].
+Qed.
+
+(* ---- the guard `no $ in a call argument` (part of wf_tree) is needed: `$` passed as an argument is NOT substituted ---- *)
+(* def m x { ;x }   m $   ;0  : the code leaves `$` in the expanded op (the assembly is then rejected: "Can't evaluate
+   label $"), the textual inlining `;$` means the next address.  Reported as a finding; replayed by the directed cases
+   of checks/c03.py. *)
+Definition dollar_tree : macro_dict :=
+ [(("", 0%N), mkmacro [] [] [SMacroCall "m" [ELbl "$"] (mkpos "t.fj" "f1" 4%N);
+                              SFlipJump (EInt 0%Z) (EInt 0%Z) (mkpos "t.fj" "f1" 5%N)] "" (mkpos "t.fj" "f1" 1%N));
+  (("m", 1%N), mkmacro ["x"] [] [SFlipJump (EInt 0%Z) (ELbl "x") (mkpos "t.fj" "f1" 2%N)] "" (mkpos "t.fj" "f1" 1%N))].
+
+Example C03_inline_dollar_argument_refuted :
+  wf_tree dollar_tree = false /\
+  exists ops lbls P ops' lbls',
+    resolve_macros 64 dollar_tree 900 = ROk (ops, lbls) /\ inline impl_fresh dollar_tree (N.to_nat 900) = Some P /\
+    resolve_macros 64 (prim_tree P) 900 = ROk (ops', lbls') /\
+    nth 1 ops (LPadding 0) = LFlipJump (EInt 0%Z) (ELbl "$") /\ nth 1 ops' (LPadding 0) = LFlipJump (EInt 0%Z) (EInt 128%Z).
+Proof.
+  split; [vm_compute; reflexivity|]. eexists _, _, _, _, _.
+  split; [vm_compute; reflexivity|]. split; [vm_compute; reflexivity|]. split; [vm_compute; reflexivity|]. split; reflexivity.
+Qed.
